@@ -311,7 +311,8 @@ func runTree(prog, words, closings string) (result string) {
 	for i := 0; i < 3; i++ {
 		select {
 		case <-done:
-		case <-time.After(caseTimeout):
+		case <-time.After(curTimeout()):
+		noteTimeout()
 			close(prod.stop)
 			return "timeout"
 		}
@@ -379,7 +380,8 @@ func runOutcomeInt(a []string) (result string) {
 	select {
 	case r := <-done:
 		return r
-	case <-time.After(caseTimeout):
+	case <-time.After(curTimeout()):
+		noteTimeout()
 		return "timeout"
 	}
 }
